@@ -75,7 +75,11 @@ def run_cfg(chk, facts, cfg):
         return sx, sx.summarize(fn['id'], args=args, arg_names=names)
 
     # ------------------------------------------------------------------ Paired
-    pstate = sm.wrapper_state(padt, sm.arith_state(S1, S2, N))
+    try:
+        pstate = sm.wrapper_state(padt, sm.arith_state(S1, S2, N))
+    except Unsupported as e:
+        chk.ob('%s:Paired-layout%s' % (PID, sfx), 'layout', 'Paired is the statistics state of the differences', False, str(e), padt['span'][0])
+        return
     A, B = T.sym('a'), T.sym('b')
     f = facts.inherent(pp, 'append_pair')
     if chk.anchor('Paired::append_pair' + sfx, f):
